@@ -6,6 +6,7 @@ func init() {
 		add := func(id, text string) { props[id].Explanation += " " + text }
 		add("C01", "Also: (R4) every compound-assignment lowering reads the target before it evaluates the right-hand side; (C06.R4) a declared name is bound only to a fresh allocation; (C05.R6) in match lowering no 'no pattern matched' edge targets the continuation block.")
 		add("C02", "Also: (R4) every i32.const/i64.const immediate is written with the signed LEB128 encoder (reviewed block-tag sites excepted); (R5) the native string-data escapes are ones the assembler decodes to exactly the original byte.")
+		add("C03", "Also: (R6) the then-context of `||` and the else-context of `&&` keep a narrowing only when both operands establish it.")
 		add("C04", "Also (C02.R4): constant address offsets in the wasm back end are signed-LEB encoded.")
 		add("C05", "Also: (R6) in the lowering of match the continuation block is only an arm exit; no-match edges go through the default-block variable.")
 		add("C06", "Also: (R4) every binding of a symbol to a storage slot in mir/gen is a fresh allocation (no aliasing of a const or of a &T referent by copy elision).")
